@@ -16,12 +16,21 @@ ASSUMPTIONS = ['adbsim (mc/adbsim.py) is a faithful adbd model', 'virtual clock 
 _REF = {}
 
 
-def run_session(twin, cfg, ch, frag, stop_on_exc=False):
-    s = Session(ch, cfg, twin=twin, frag=frag)
+def timed(op, tkw):
+    if not tkw:
+        return op
+    if isinstance(op[-1], dict):
+        return op[:-1] + (dict(op[-1], **tkw),)
+    return op + (dict(tkw),)
+
+
+def run_session(twin, cfg, ch, frag, stop_on_exc=False, eps=0.0, tkw=None):
+    s = Session(ch, cfg, twin=twin, frag=frag, eps=eps)
     res = []
     frames_at = []
     try:
         for op in scen.std_ops():
+            op = timed(op, tkw)
             res.append(s.op(op))
             frames_at.append(s.env.frames_seen)
             if stop_on_exc and res[-1][0] != 'ok':
@@ -59,7 +68,9 @@ def run_frag(params, ch):
     if params.get('policy'):
         cfg['frag_policy'] = params['policy']
     ref = reference(twin)
-    o = run_session(twin, cfg, ch, frag=not params.get('policy'))
+    tm = params.get('timing')
+    o = run_session(twin, cfg, ch, frag=not params.get('policy'), eps=tm[2] if tm else 0.0,
+                    tkw={'transport_timeout_s': tm[0], 'read_timeout_s': tm[1]} if tm else None)
     viol = common_viol(o)
     if o['res'] != ref['res']:
         bad = [i for i, (a, b) in enumerate(zip(o['res'], ref['res'])) if a != b]
@@ -69,9 +80,9 @@ def run_frag(params, ch):
     if o['fs'] != ref['fs']:
         viol.append({'msg': 'pushed file differs from the unfragmented run'})
     dev = sum(1 for c in ch.choices if c)
-    return {'outcome': (o['res'], len(o['host']), o['nreads'], params.get('policy')), 'viol': viol,
-            'nontrivial': (twin, tuple(ch.choices), params.get('policy')) if (dev or params.get('policy')) else None,
-            'sample': {'twin': twin, 'policy': params.get('policy'), 'bulk_reads': o['nreads'], 'deviations': [(i, c) for i, c in enumerate(ch.choices) if c]},
+    return {'outcome': (o['res'], len(o['host']), o['nreads'], params.get('policy'), tm), 'viol': viol,
+            'nontrivial': (twin, tuple(ch.choices), params.get('policy'), tm) if (dev or params.get('policy')) else None,
+            'sample': {'twin': twin, 'policy': params.get('policy'), 'timing': tm, 'bulk_reads': o['nreads'], 'deviations': [(i, c) for i, c in enumerate(ch.choices) if c]},
             'trans': o['nreads']}
 
 
@@ -118,6 +129,13 @@ def parts(tier):
     pols = ['one', 'two', 'alt-empty-one', 'n-1', 'half', 'empty-then-full']
     out.append(Part('policies', [{'twin': t, 'policy': p} for t in twins for p in pols], run_frag,
                     what='global fragmentation policies', bound='6 policies x 2 twins', min_outcomes=2))
+    timings = [(0, 10, 0.01), (0.05, 10, 0.01), (0.5, 3, 0.001)]
+    out.append(Part('slow-fragments', [{'twin': t, 'policy': p, 'timing': tm} for t in twins for p in pols for tm in timings], run_frag,
+                    what='the same policies on a clock that advances with every transport call, with a per-call transport timeout (0 = polling, 0.05 s, 0.5 s) far below the '
+                         'read timeout: every fragment arrives in time and the whole packet well within read_timeout_s, so the results must not change',
+                    bound='6 policies x 3 (transport timeout, read timeout, seconds per call) x 2 twins', min_outcomes=2))
+    out.append(Part('slow-fragments-dfs', [{'twin': t, 'timing': timings[1]} for t in twins], run_frag, {'frag': 1},
+                    what='every single fragment deviation on the advancing clock (transport timeout 0.05 s, read timeout 10 s, 0.01 s per call)', bound='frag deviations <= 1'))
     ref = reference('sync')
     muts = []
     cmds = []
